@@ -1006,6 +1006,15 @@ func runC14(t *testing.T, c Case, keepLog bool) (out Outcome) {
 	}
 	together := make([][]Obs, len(c.Clients))
 	var res simrt.Result
+	// no client may take more steps in company than all of them are allowed alone
+	var stepLimit uint64
+	for _, p := range c.Clients {
+		stepLimit += absBudget * uint64(len(p.Steps))
+		for _, st := range p.Steps {
+			stepLimit += 2000 * uint64(len(st.Input))
+		}
+	}
+	overBudget := -1
 	if c.Race {
 		var wg sync.WaitGroup
 		start := make(chan struct{})
@@ -1034,7 +1043,7 @@ func runC14(t *testing.T, c Case, keepLog bool) (out Outcome) {
 				}
 				res = simrt.Run(simrt.Config{Tape: c.SchedTape, ActiveNum: c.ActiveNum, ActiveDen: c.ActiveDen, SiteSeed: c.SiteSeed,
 					Budget: c.Budget, KeepLog: keepLog, FreezeClient: c.FreezeClient, FreezeAt: c.FreezeAt, FreezeSync: c.FreezeSync,
-					HandoffWaiter: c.HandoffWaiter, HandoffHolder: c.HandoffHolder, HandoffAfter: c.HandoffAfter}, clients)
+					HandoffWaiter: c.HandoffWaiter, HandoffHolder: c.HandoffHolder, HandoffAfter: c.HandoffAfter, StepLimit: stepLimit}, clients)
 			})
 		}()
 		if out.Skipped != "" {
@@ -1059,6 +1068,12 @@ func runC14(t *testing.T, c Case, keepLog bool) (out Outcome) {
 			return
 		}
 		for i, pm := range res.ClientPanic {
+			if strings.HasPrefix(pm, "step budget exceeded") {
+				if overBudget < 0 {
+					overBudget = i
+				}
+				continue
+			}
 			if pm != "" {
 				out.Class = "interference_panic"
 				out.Detail = fmt.Sprintf("client %d panicked outside a parse step: %s", i, pm)
@@ -1067,6 +1082,12 @@ func runC14(t *testing.T, c Case, keepLog bool) (out Outcome) {
 		}
 	}
 	if c.Cold && !computeSolo() {
+		return
+	}
+	if overBudget >= 0 {
+		out.Class = "interference_divergence"
+		out.Detail = fmt.Sprintf("client %d (grammar %s cfg %+v) terminates alone (every client does, within %d steps in all) and executes more than %d steps when the %d clients run together",
+			overBudget, c.Clients[overBudget].Grammar, c.Clients[overBudget].Cfg, stepLimit, stepLimit, len(c.Clients))
 		return
 	}
 	for i := range c.Clients {
@@ -1751,7 +1772,13 @@ func TestSim(t *testing.T) {
 			res.Outcomes = append(res.Outcomes, handle(c))
 		}
 	} else {
+		// where a dying process got to (read by the orchestrator to find the
+		// case that killed it)
+		at, _ := os.Create(os.Getenv("VERIF_OUT") + ".at")
 		for i := job.From; i < job.To; i++ {
+			if at != nil {
+				at.WriteAt([]byte(fmt.Sprintf("%12d", i)), 0)
+			}
 			var c Case
 			switch job.Mode {
 			case "c06":
